@@ -103,6 +103,9 @@ class Writer:
         self.outer_conflict = rng.random() < 0.4
         self.rebind = rng.random() < 0.5
         self.in_mr = 0
+        # old toolkits bind "xsi" to the 1999 instance namespace; a document may do so (and not use it) while it
+        # writes the 2001 one under another prefix
+        self.old_xsi = self.xsi != "xsi" and rng.random() < 0.6
 
     def new_id(self):
         self.n += 1
@@ -188,8 +191,9 @@ class Writer:
             # it for itself, as local mode does anyway)
             outer = ' xmlns:x="urn:outer:x" xmlns:xsd="urn:outer:xsd"' if self.outer_conflict else ""
             return ('<e:Envelope xmlns:e="%s"%s><e:Body>%s</e:Body></e:Envelope>' % (xmlread.ENV11, outer, body)).encode("utf-8")
-        return ('<e:Envelope xmlns:e="%s" xmlns:%s="%s" xmlns:xsd="%s" xmlns:soapenc="%s" xmlns:x="%s">'
-                '<e:Body>%s</e:Body></e:Envelope>' % (xmlread.ENV11, self.xsi, XSI, XSD, ENC, TNS, body)).encode("utf-8")
+        old = ' xmlns:xsi="http://www.w3.org/1999/XMLSchema-instance"' if self.old_xsi else ""
+        return ('<e:Envelope xmlns:e="%s" xmlns:%s="%s"%s xmlns:xsd="%s" xmlns:soapenc="%s" xmlns:x="%s">'
+                '<e:Body>%s</e:Body></e:Envelope>' % (xmlread.ENV11, self.xsi, XSI, old, XSD, ENC, TNS, body)).encode("utf-8")
 
 
 def canon(v):
@@ -323,15 +327,25 @@ def run(ctx):
     ctx.case("empty-array", True)
     if r != []:
         ctx.fail("empty array does not decode to an empty list", {"doc": doc.decode()}, repr(r), [])
-    untyped = ('<e:Envelope xmlns:e="%s" xmlns:xsi="%s" xmlns:xsd="%s" xmlns:soapenc="%s" xmlns:x="%s"><e:Body>'
-               '<m:fResponse xmlns:m="%s"><return xsi:type="soapenc:Array" soapenc:arrayType="x:Person[2]">'
-               '<item><name>A</name><age>1</age></item><item><name>B</name><age>2</age></item></return>'
-               '</m:fResponse></e:Body></e:Envelope>' % (xmlread.ENV11, XSI, XSD, ENC, TNS, TNS)).encode()
-    r = c.service.f("x", __inject={"reply": untyped})
-    ctx.case("arrayType-items", True)
-    ok = isinstance(r, list) and len(r) == 2 and all(type(x).__name__ == "Person" and isinstance(x.age, int) for x in r)
-    if not ok:
-        ctx.fail("array items are not typed by arrayType", {"doc": untyped.decode()}, canon(r), "2 Person items with int ages")
+    # ... whatever the document binds the prefix "xsi" to (the 2001 namespace, the 1999 one of old toolkits, nothing)
+    for label, decl, pfx in (("xsi-2001", ' xmlns:xsi="%s"' % XSI, "xsi"), ("xsi-unbound", ' xmlns:i="%s"' % XSI, "i"),
+                             ("xsi-1999", ' xmlns:i="%s" xmlns:xsi="http://www.w3.org/1999/XMLSchema-instance"' % XSI, "i"),
+                             ("no-instance-namespace", "", None),
+                             ("only-1999", ' xmlns:xsi="http://www.w3.org/1999/XMLSchema-instance"', None)):
+        ta = ' %s:type="soapenc:Array"' % pfx if pfx else ""
+        untyped = ('<e:Envelope xmlns:e="%s"%s xmlns:xsd="%s" xmlns:soapenc="%s" xmlns:x="%s"><e:Body>'
+                   '<m:fResponse xmlns:m="%s"><return%s soapenc:arrayType="x:Person[2]">'
+                   '<item><name>A</name><age>1</age></item><item><name>B</name><age>2</age></item></return>'
+                   '</m:fResponse></e:Body></e:Envelope>' % (xmlread.ENV11, decl, XSD, ENC, TNS, TNS, ta)).encode()
+        ctx.case(("arrayType-items", label), True)
+        try:
+            r = c.service.f("x", __inject={"reply": untyped})
+        except Exception as e:
+            r = "%s: %s" % (type(e).__name__, e)
+        ok = isinstance(r, list) and len(r) == 2 and all(type(x).__name__ == "Person" and isinstance(x.age, int) for x in r)
+        if not ok:
+            ctx.fail("array items are not typed by arrayType", {"doc": untyped.decode(), "binding": label},
+                     canon(r) if not isinstance(r, str) else r, "2 Person items with int ages")
     ctx.sample({"doc": metas[0]["doc"][:600] if metas else ""})
     ctx.sample({"value": metas[-1]["value"] if metas else ""})
 
